@@ -39,6 +39,15 @@ def getAttr (p : Props) (i : Nat) : Option (List PVal) := p.attrs.lookup i
 def putAttr (p : Props) (i : Nat) (vs : List PVal) : Props :=
   { p with attrs := (p.attrs.filter (·.1 ≠ i)) ++ [(i, vs)] }
 
+/-- `del props.<name>`: AttributeError (`none`) unless the property is set -/
+def delAttr (p : Props) (name : String) : Option Props :=
+  match idOfName name with
+  | none => none
+  | some i => if (p.getAttr i).isSome then some { p with attrs := p.attrs.filter (fun kv => kv.1 != i) } else none
+
+/-- `Properties.clear()` -/
+def clear (p : Props) : Props := { p with attrs := [] }
+
 /-- "Check for forbidden values" of `__setattr__` (scalar, integer values) -/
 def valueForbidden (name : String) (v : PVal) : Bool :=
   match v with
